@@ -227,6 +227,43 @@ class WsgiTransportContext(HttpTransportContext):
             return Address(type=Address.TCP6, host=addr, port=port)
 
 
+class _ClosingIterator(object):
+    """Response body that runs ``finalize`` exactly once: when the body is
+    exhausted or when the server calls ``close()``, whichever comes first --
+    that is, not before the body has been handed over."""
+
+    def __init__(self, body, finalize):
+        self._body = iter(body)
+        self._finalize = finalize
+        self._finalized = False
+
+    def __iter__(self):
+        return self
+
+    def __next__(self):
+        try:
+            return next(self._body)
+
+        except StopIteration:
+            self.close()
+            raise
+
+    next = __next__
+
+    def close(self):
+        if self._finalized:
+            return
+
+        self._finalized = True
+        try:
+            body_close = getattr(self._body, 'close', None)
+            if body_close is not None:
+                body_close()
+
+        finally:
+            self._finalize()
+
+
 class WsgiMethodContext(HttpMethodContext):
     """The WSGI-Specific method context. WSGI-Specific information is stored in
     the transport attribute using the :class:`WsgiTransportContext` class.
@@ -372,9 +409,7 @@ class WsgiApplication(HttpBase):
 
         retval = ctx.transport.wsdl
 
-        ctx.close()
-
-        return [retval]
+        return _ClosingIterator([retval], ctx.close)
 
     def handle_error(self, p_ctx, others, error, start_response):
         """Serialize errors to an iterable of strings and return them.
@@ -407,7 +442,8 @@ class WsgiApplication(HttpBase):
             # Report but ignore any exceptions from auxiliary methods.
             logger.exception(e)
 
-        return chain(p_ctx.out_string, self.__finalize(p_ctx))
+        return _ClosingIterator(p_ctx.out_string,
+                                             lambda: self.__finalize(p_ctx))
 
     def handle_rpc(self, req_env, start_response):
         initial_ctx = WsgiMethodContext(self, req_env,
@@ -507,7 +543,8 @@ class WsgiApplication(HttpBase):
         start_response(p_ctx.transport.resp_code,
                                 _gen_http_headers(p_ctx.transport.resp_headers))
 
-        retval = chain(p_ctx.out_string, self.__finalize(p_ctx))
+        retval = _ClosingIterator(p_ctx.out_string,
+                                             lambda: self.__finalize(p_ctx))
 
         try:
             process_contexts(self, others, p_ctx, error=None)
